@@ -1,8 +1,10 @@
 //! C16: sentence splitting partitions the text and breaks only (and always) after terminators.
 //!
-//! Case line: `C16 split idx=<n> limit=<n> ck=<0|1> lex=<hex,hex;hex,..> text=<code points>`
+//! Case line: `C16 split idx=<n> limit=<n> ck=<0|1> ck_variant=<cur|fix> lex=<hex,hex;hex,..> text=<code points>`
 //! (`lex` = the lexicons in lookup order — user dictionaries first, then the system dictionary —
-//! each the list of indexed surfaces as UTF-8 hex).
+//! each the list of indexed surfaces as UTF-8 hex; `ck_variant` = which `Ordering::Equal` arm of
+//! `NonBreakChecker::has_non_break_word` the tree has, found by probing its source: `fix` when the
+//! arm slices the matched word `input[i..end_byte]` (repair of D12), `cur` otherwise).
 //! Answer: `ok eos=<get_eos of the whole text> ranges=<b:e,b:e,...>` (byte ranges of the iterator).
 use crate::common::*;
 use crate::dict;
@@ -281,6 +283,21 @@ fn build_directed_dic(words: &[&str], tag: &str) -> Result<Dic, String> {
 // ---------------------------------------------------------------------------------------------
 // the real implementation
 // ---------------------------------------------------------------------------------------------
+/// which instance of the model mirrors the tree: does the `Ordering::Equal` arm of
+/// `has_non_break_word` look at the matched word (`input[i..end_byte]`, the repair of D12) or still at
+/// the rest of the input (`input[i..]`)?  Comments are ignored; an unreadable source counts as `cur`.
+fn impl_ck_variant() -> &'static str {
+    let p = format!("{}/src/sentence_detector.rs", crate::c07::repo_sudachi_dir());
+    match std::fs::read_to_string(p) {
+        Ok(s) => {
+            let code: String = s.lines().map(|l| l.split("//").next().unwrap_or("")).collect::<Vec<_>>().join("\n");
+            let code: String = code.chars().filter(|c| !c.is_whitespace()).collect();
+            if code.contains("input[i..end_byte]") { "fix" } else { "cur" }
+        }
+        Err(_) => "cur",
+    }
+}
+
 struct Observed {
     eos: String,
     ranges: Result<Vec<(usize, usize, String)>, String>, // Err = PANIC / NONTERMINATION
@@ -469,6 +486,8 @@ pub fn run(run: &mut Run) {
 no checker / system dictionary / system+user dictionaries, with and without one-character terminator entries; \
 non-trivial = at least two sentences or a vetoed terminator; distinct by limit+dictionary+text".into();
     let n = run.opts.count;
+    let ck_variant = impl_ck_variant();
+    run.extra.insert("model_instance_ck_variant".into(), serde_json::json!(ck_variant));
     let dir = directed();
     // the pool of dictionaries depends on the seed only, so that `--only` replays see the same ones
     let mut pool: Vec<Option<Dic>> = vec![];
@@ -508,7 +527,7 @@ non-trivial = at least two sentences or a vetoed terminator; distinct by limit+d
             None => String::new(),
             Some(d) => d.lexs.iter().map(|l| l.iter().map(|w| hex(w.as_bytes())).collect::<Vec<_>>().join(",")).collect::<Vec<_>>().join(";"),
         };
-        let payload = format!("limit={} ck={} lex={} text={}", limit, if dic.is_some() { 1 } else { 0 }, lex_field, dict::cps(&text));
+        let payload = format!("limit={} ck={} ck_variant={} lex={} text={}", limit, if dic.is_some() { 1 } else { 0 }, ck_variant, lex_field, dict::cps(&text));
         let obs = observe(&text, limit, dic);
         let ranges_s = match &obs.ranges {
             Ok(r) => r.iter().map(|(b, e, _)| format!("{}:{}", b, e)).collect::<Vec<_>>().join(","),
